@@ -108,8 +108,20 @@ impl DhtHandler {
     }
 
     pub async fn run(mut self) {
+        #[cfg(btdht_verif)]
+        crate::verif::emit("NodeStart", || {
+            vec![
+                ("node", self.socket.local_addr().into()),
+                ("id", self.this_node_id.into()),
+                ("read_only", self.read_only.into()),
+                ("announce_port", self.announce_port.map(|p| p as i64).into()),
+                ("refresh_aid", self.refresh.action_id().verif_value().into()),
+            ]
+        });
         while self.running {
-            self.run_once().await
+            self.run_once().await;
+            #[cfg(btdht_verif)]
+            self.verif_step_end();
         }
     }
 
@@ -119,10 +131,14 @@ impl DhtHandler {
                 // `unwrap` is OK because we checked the timer is non-empty, so it should never
                 // return `None`.
                 let token = token.unwrap();
+                #[cfg(btdht_verif)]
+                self.verif_step_begin("timer", format!("{token:?}"));
                 self.handle_timeout(token).await
             }
             command = self.command_rx.recv() => {
                 if let Some(command) = command {
+                    #[cfg(btdht_verif)]
+                    self.verif_step_begin("command", command.verif_name().to_owned());
                     self.handle_command(command).await
                 } else {
                     self.shutdown()
@@ -130,12 +146,22 @@ impl DhtHandler {
             }
             result = self.bootstrap.state_rx.changed() => {
                 assert!(result.is_ok());
+                #[cfg(btdht_verif)]
+                self.verif_step_begin("bootstrap", format!("{:?}", *self.bootstrap.state_rx.borrow()));
                 if self.is_bootstrapped() {
                     self.handle_bootstrap_success().await;
                 }
             }
             message = self.socket.recv() => {
                 match message {
+                    #[cfg(btdht_verif)]
+                    Ok((message, addr)) => {
+                        self.verif_step_begin("incoming", format!("{addr}"));
+                        if let Err(error) = self.handle_incoming(message, addr).await {
+                            crate::verif::emit("HErr", || vec![("node", self.socket.local_addr().into()), ("err", format!("{error}").into())]);
+                        }
+                    }
+                    #[cfg(not(btdht_verif))]
                     Ok((message, addr)) => if let Err(error) = self.handle_incoming(message, addr).await {
                         tracing::debug!("{}: Failed to handle incoming message: {} from:{addr:?}", self.ip_version(), error);
                     }
@@ -147,6 +173,35 @@ impl DhtHandler {
 
     fn is_bootstrapped(&self) -> bool {
         *self.bootstrap.state_rx.borrow() == bootstrap::State::Bootstrapped
+    }
+
+    // Verification hooks: bracket every handler step (one `select!` branch = one atomic step on the
+    // node's state); the end of a step reports the projected state.
+    #[cfg(btdht_verif)]
+    fn verif_step_begin(&self, kind: &'static str, what: String) {
+        crate::verif::emit("HStep", || {
+            vec![
+                ("node", self.socket.local_addr().into()),
+                ("kind", kind.into()),
+                ("what", what.into()),
+            ]
+        });
+    }
+
+    #[cfg(btdht_verif)]
+    fn verif_step_end(&self) {
+        crate::verif::emit("HEnd", || {
+            vec![
+                ("node", self.socket.local_addr().into()),
+                ("table", crate::verif::table_val(&self.routing_table.lock().unwrap())),
+                ("timers", self.timer.verif_len().into()),
+                ("lookups", self.lookups.len().into()),
+                ("queued", self.queued_lookups.len().into()),
+                ("waiters", self.bootstrap_txs.len().into()),
+                ("peers", crate::verif::peers_queue(&self.active_stores).len().into()),
+                ("running", self.running.into()),
+            ]
+        });
     }
 
     async fn handle_command(&mut self, task: OneshotTask) {
@@ -161,6 +216,14 @@ impl DhtHandler {
                 if self.initial_bootstrap_done {
                     self.handle_start_lookup(lookup).await;
                 } else {
+                    #[cfg(btdht_verif)]
+                    crate::verif::emit("LookupQueued", || {
+                        vec![
+                            ("node", self.socket.local_addr().into()),
+                            ("target", lookup.info_hash.into()),
+                            ("announce", lookup.announce.into()),
+                        ]
+                    });
                     // The routing table is still being populated, postpone the lookup until the
                     // initial bootstrap completes.
                     self.queued_lookups.push(lookup);
@@ -424,6 +487,13 @@ impl DhtHandler {
 
     async fn handle_bootstrap_success(&mut self) {
         // Send notification that the bootstrap has completed.
+        #[cfg(btdht_verif)]
+        crate::verif::emit("BootSuccess", || {
+            vec![
+                ("node", self.socket.local_addr().into()),
+                ("waiters", self.bootstrap_txs.len().into()),
+            ]
+        });
         for (_, tx) in self.bootstrap_txs.drain() {
             tx.send(()).unwrap_or(())
         }
@@ -442,6 +512,15 @@ impl DhtHandler {
         // Start the lookup right now if not bootstrapping
         let mid_generator = self.aid_generator.generate();
         let action_id = mid_generator.action_id();
+        #[cfg(btdht_verif)]
+        crate::verif::emit("LookupStart", || {
+            vec![
+                ("node", self.socket.local_addr().into()),
+                ("aid", action_id.verif_value().into()),
+                ("target", lookup.info_hash.into()),
+                ("announce", lookup.announce.into()),
+            ]
+        });
 
         let mut lookup = TableLookup::new(
             lookup.info_hash,
@@ -455,6 +534,14 @@ impl DhtHandler {
         .await;
 
         if lookup.completed() {
+            #[cfg(btdht_verif)]
+            crate::verif::emit("LookupDone", || {
+                vec![
+                    ("node", self.socket.local_addr().into()),
+                    ("aid", action_id.verif_value().into()),
+                    ("immediate", true.into()),
+                ]
+            });
             lookup.recv_finished(self.announce_port, &self.socket).await;
         } else {
             self.lookups.insert(action_id, lookup);
@@ -509,6 +596,14 @@ impl DhtHandler {
             tracing::error!("{}: Lookup not found", self.ip_version());
             return;
         };
+        #[cfg(btdht_verif)]
+        crate::verif::emit("LookupDone", || {
+            vec![
+                ("node", self.socket.local_addr().into()),
+                ("aid", trans_id.action_id().verif_value().into()),
+                ("immediate", false.into()),
+            ]
+        });
 
         lookup.recv_finished(self.announce_port, &self.socket).await
     }
@@ -520,6 +615,8 @@ impl DhtHandler {
     }
 
     fn shutdown(&mut self) {
+        #[cfg(btdht_verif)]
+        crate::verif::emit("Shutdown", || vec![("node", self.socket.local_addr().into())]);
         self.running = false;
     }
 
